@@ -382,3 +382,61 @@ macro_rules! alloc_harness {
 alloc_harness!(c20_alloc_array, b'*');
 alloc_harness!(c20_alloc_map, b'%');
 alloc_harness!(c20_alloc_set, b'~');
+
+// ---------------------------------------------------------------- C05: reply framing
+fn line_framing(is_err: bool) {
+    use std::mem::ManuallyDrop;
+    let p: [u8; 3] = kani::any();
+    let f = ManuallyDrop::new(if is_err {
+        RespFrame::Error(Arc::new(vec![p[0], p[1], p[2]]))
+    } else {
+        RespFrame::SimpleString(Arc::new(vec![p[0], p[1], p[2]]))
+    });
+    let bytes = ManuallyDrop::new(serialize_to_vec(&f));
+    let bytes: &Vec<u8> = match &*bytes {
+        Ok(b) => b,
+        Err(_) => {
+            assert!(false, "serialisation failed");
+            return;
+        }
+    };
+    let r = ManuallyDrop::new(parse_frame(bytes));
+    kani::cover!(p[1] == b'\r' && p[2] == b'\n', "payload with CRLF inside");
+    match &*r {
+        Ok(Some((g, c))) => {
+            assert!(*c == bytes.len(), "one reply = one frame: the parser consumes exactly the serialised bytes");
+            match (g, is_err) {
+                (RespFrame::Error(x), true) => assert!(x.len() == 3, "payload length preserved"),
+                (RespFrame::SimpleString(x), false) => assert!(x.len() == 3, "payload length preserved"),
+                _ => assert!(false, "frame type changed"),
+            }
+        }
+        _ => assert!(false, "reply does not parse back to a frame"),
+    }
+}
+
+#[kani::proof]
+#[kani::unwind(8)]
+#[kani::stub(alloc::fmt::format, fmt_stub)]
+#[kani::stub(parse_integer, cut_arm)]
+#[kani::stub(parse_bulk_string, cut_arm)]
+#[kani::stub(parse_array, cut_arm)]
+#[kani::stub(parse_double, cut_arm)]
+#[kani::stub(parse_map, cut_arm)]
+#[kani::stub(parse_set, cut_arm)]
+fn c05_line_framing_error() {
+    line_framing(true);
+}
+
+#[kani::proof]
+#[kani::unwind(8)]
+#[kani::stub(alloc::fmt::format, fmt_stub)]
+#[kani::stub(parse_integer, cut_arm)]
+#[kani::stub(parse_bulk_string, cut_arm)]
+#[kani::stub(parse_array, cut_arm)]
+#[kani::stub(parse_double, cut_arm)]
+#[kani::stub(parse_map, cut_arm)]
+#[kani::stub(parse_set, cut_arm)]
+fn c05_line_framing_simple() {
+    line_framing(false);
+}
